@@ -65,9 +65,13 @@ RULE = (
     'every pair (below all, reaching a limit below the smallest gap, above the smallest gap below every limit, '
     'up to twice the largest gap, wider), windows judged where they are built and on the results; '
     'field cases: every other field of FitRequirements / FitParameters at both ends of its range and in '
-    'between (min_p_value 0..1, width factors 0..inf, guess_background_fraction 0.1..0.95 with windows of '
-    '>= 2 / fraction + 2 points; its ends 0 and 1 may be refused) on a spectrum with a resolved, an '
-    'under-resolved, a too broad and a mis-modelled peak and a peak-free estimate; protocol cases: one '
+    'between (min_p_value 0..1, width factors 0..inf, guess_background_fraction 0.1..0.95; its ends 0 and 1 '
+    'may be refused) on a spectrum with a resolved, an '
+    'under-resolved, a too broad and a mis-modelled peak and a peak-free estimate; narrow-window cases: '
+    'non-default guess_background_fraction f (0.1, 0.25, 0.75, 0.95, drawn in (0.04, 0.98); float / numpy) x '
+    'windows holding every point count from the number of parameters up to 2 / f + 2 (one explicit window '
+    'per count in one call, any layout; automatic windows of such widths) x single model pairs and lists: '
+    'one result per estimate, no exception (quick tier for f > 1/2: one pair, three counts); protocol cases: one '
     'reference call per shard and the same input in every other documented form (variances on windows / '
     'estimates / width / coordinate, masks that mask nothing / outside / inside the windows, 13 dimension '
     'names, keyword calls, numpy / Enum / subclass names, objects used twice, call repeated after a refusal, '
@@ -83,8 +87,8 @@ ASSUMPTIONS = [
     'coordinate, estimates sorted when windows are built automatically, explicit windows with '
     'lower <= upper, 0 <= neighbor_separation_factor <= 1 (at 1 the limit is the estimate itself: '
     'contains-the-estimate and the limit are judged with 8 eps slack of the coordinate magnitude), '
-    '0 < guess_background_fraction < 1 with at least 2 / fraction + 2 points in every fitted window (both '
-    'the tails and the bulk the first guesses are taken from are non-empty); the fractions 0 and 1 and '
+    '0 < guess_background_fraction < 1 with any window (a window with at least as many points as the '
+    'model has parameters is fitted or assessed, whatever int(n f / 2) comes to); the fractions 0 and 1 and '
     'variances on estimates / width / coordinate with automatic windows are outside the domain: a '
     'ValueError resp. VariancesError there is counted, a result is judged',
     'the same input in another documented form (container, dtype of a name, dimension label, keyword vs '
@@ -595,7 +599,7 @@ class Monitors:
                 # (stated in ASSUMPTIONS): a refusal of the stated type is counted, not judged
                 ctx.count('refused:' + self.tag.get('refusal_class', 'unnamed'))
                 return
-            self._judge_raise(ev.exc, rec, used, est, x, base, auto)
+            self._judge_raise(ev.exc, rec, used, est, x, base, auto, a.get('fit_parameters'))
             return
         res = ev.result
         if not isinstance(res, list) or len(res) != m:
@@ -677,6 +681,14 @@ class Monitors:
                 continue
             if n == k:
                 ctx.hit('points == parameters')
+            gf = self.tag.get('guess_fraction')
+            if gf is not None:
+                ctx.event('narrow_window_with_fraction')
+                nt = int(n * gf / 2)
+                ctx.hit('narrow window with enough points, ' + ('fewer than 2 / fraction (no point for the tails)'
+                                                                 if nt == 0 else 'at least 2 / fraction'))
+                if n - 2 * nt <= 2:
+                    ctx.hit('narrow window with enough points, one or two points between the tails')
             rep = {'red_chisq': float(r.red_chisq.value), 'p_value': float(r.p_value.value),
                    'aic': float(r.aic.value)}
             xw, yw, vw = x[mask], y[mask], var[mask]
@@ -704,7 +716,7 @@ class Monitors:
                 ctx.violation('better_than', f'better_than gives {got} for AIC {a1!r} vs {a2!r}',
                               {**base, 'aic': [a1, a2]})
 
-    def _judge_raise(self, exc, rec, used, est, x, base, auto):
+    def _judge_raise(self, exc, rec, used, est, x, base, auto, fpar=None):
         ctx = self.ctx
         where = _raised_in(exc)
         j = len(rec['peaks']) - 1 if where != 'fit_peaks' else len(rec['peaks'])
@@ -724,6 +736,19 @@ class Monitors:
             case.update(window=[lo, hi], points_in_window=n, parameters=k)
             if n < k:
                 ctx.hit('window with fewer points than parameters')
+            # a fact of the input: with this fraction of this window, is there a point for the tails
+            # (int(n f / 2) on either side) and one between them?  (documented: 'first and last
+            # quarter of the window' for 0.5, 'the remainder' for the peak)
+            try:
+                frac = 0.5 if fpar is None else float(fpar.guess_background_fraction)
+                if n >= k and 0 < frac < 1:
+                    nt = int(n * frac / 2)
+                    keys['mechanism'] = ('empty_guess_region' if nt == 0 or n - 2 * nt <= 0
+                                         else 'guess_regions_not_empty')
+                    case.update(guess_background_fraction=frac, points_in_either_tail=nt,
+                                points_between_tails=n - 2 * nt)
+            except Exception:  # noqa: BLE001
+                ctx.oracle_error('C17 guess regions of a raising window')
         ctx.violation('fit_peaks_raised',
                       f'fit_peaks raised {type(exc).__name__}: {str(exc)[:120]} (in {where}) for an '
                       'admissible input', case, **keys)
@@ -733,6 +758,9 @@ class Monitors:
         ctx = self.ctx
         est = a['peak_estimates']
         edim = est.dim
+        if self.tag.get('skip_isolation'):
+            ctx.count('isolation_not_run:budget_of_the_class')
+            return
         for i, r in enumerate(res):
             # the one window in either layout scipp allows for sizes {dim: 1, 'range': 2}
             layout = ISOLATION_LAYOUTS[i % len(ISOLATION_LAYOUTS)]
@@ -1789,8 +1817,7 @@ def build_field_case(rng, fi, tier, M, P, sources):
     its admissible range (both ends included) on a spectrum that makes every requirement bite:
     a well-resolved peak, an under-resolved one (FWHM ~ 0.8 grid steps), a broad one (FWHM above
     the window width), a Lorentzian fitted with the Gaussian model (small p) and an estimate
-    without a peak; windows of 40..60 points (>= 2 / fraction + 2 points for the smallest
-    guess_background_fraction used)."""
+    without a peak; windows of 40..60 points (narrow windows x fraction: build_narrow_fraction_case)."""
     cls, fld, pos, val = FIELD_SETTINGS[fi % len(FIELD_SETTINGS)]
     rnd = fi // len(FIELD_SETTINGS)
     h = 10 ** rng.uniform(-3, 1)
@@ -1820,6 +1847,109 @@ def build_field_case(rng, fi, tier, M, P, sources):
             tag['refusal_ok'] = ('ValueError',)
             tag['refusal_class'] = f'{fld} = {val}'
     return data, kw, tag, ('fit_peaks', 'field', cls, fld, pos, type(v).__name__)
+
+
+# ---- narrow windows x guess_background_fraction ------------------------------------------------
+NARROW_FRACTIONS = ['0.1', '0.25', '0.75', '0.95', 'drawn']
+# (peak specification, background specification): single pairs and lists
+NARROW_SPECS = [('gaussian', 'linear'), ('lorentzian', 'quadratic'), (('gaussian', 'lorentzian'), 'linear'),
+                ('pseudo_voigt', 'linear'), ('gaussian', ('linear', 'quadratic'))]
+FORCED_NARROW_CLASSES = [f'narrow windows, guess_background_fraction {fc}, {wk} windows'
+                         for fc in NARROW_FRACTIONS for wk in ('explicit', 'automatic')]
+FORCED_NARROW_REGION_CLASSES = [
+    'narrow window with enough points, fewer than 2 / fraction (no point for the tails)',
+    'narrow window with enough points, at least 2 / fraction',
+    'narrow window with enough points, one or two points between the tails']
+
+
+def build_narrow_fraction_case(rng, ni, tier, M, P, sources):
+    """fit_peaks calls with a NON-DEFAULT ``guess_background_fraction`` f in (0, 1) on windows that hold
+    just enough points: every point count from the number of parameters of the smallest model
+    pair up to 2 / f + 2 (where ``int(n f / 2)`` goes from 0 to 1; at least 6 counts; at most 10 per
+    call, the ends and the counts around 2 / f always among them), one explicit window per count
+    in one call, then two calls with automatic windows of such widths.  Every call must return one
+    result per estimate (any assessment).  Yields (data, kw, tag, sig)."""
+    fc = NARROW_FRACTIONS[ni % len(NARROW_FRACTIONS)]
+    rnd = ni // len(NARROW_FRACTIONS)
+    frac = float(fc) if fc != 'drawn' else float(10 ** rng.uniform(math.log10(0.04), math.log10(0.98)))
+    if fc == 'drawn' and abs(frac - 0.5) < 0.02:
+        frac = 0.4
+    pk_spec, bg_spec = NARROW_SPECS[(ni + rnd) % len(NARROW_SPECS)]
+    # budget of the quick tier: for f > 1/2 the first guess of the peak comes from one or two points,
+    # a third of these fits runs into the evaluation limit of the optimiser (1..3 s each): one model
+    # pair, three counts, one call with automatic windows, no single-peak re-runs (the thorough
+    # tier has everything)
+    lean = tier == 'quick' and frac > 0.5
+    if lean:
+        pk_spec = pk_spec if isinstance(pk_spec, str) else pk_spec[0]
+        bg_spec = bg_spec if isinstance(bg_spec, str) else bg_spec[0]
+    pks = [pk_spec] if isinstance(pk_spec, str) else list(pk_spec)
+    bgs = [bg_spec] if isinstance(bg_spec, str) else list(bg_spec)
+    kmin = min(pm.n_params(a, BKG_NAME[b]) for a in pks for b in bgs)
+    flip = 2 / frac  # n >= flip  <=>  at least one point in either tail
+    hi = max(int(math.ceil(flip)) + 2, kmin + 5)
+    counts = list(range(kmin, hi + 1))
+    if len(counts) > 10:
+        must = {kmin, kmin + 1, hi, *(c for c in (int(math.ceil(flip)) + d for d in (-2, -1, 0, 1)) if kmin <= c <= hi)}
+        rest = [c for c in counts if c not in must]
+        pick = [rest[(rnd + 3 * q) % len(rest)] for q in range(10 - len(must))] if rest else []
+        counts = sorted(must | set(pick))
+    if lean:
+        counts = sorted({kmin, kmin + 1 + rnd % 3, hi})
+    h = 10 ** rng.uniform(-3, 1)
+    n = 240
+    x = h * rng.uniform(-50, 300) + h * np.arange(n, dtype=np.float64)
+    centres = [int(n * q) for q in (0.25, 0.5, 0.75)]
+    kinds = [pks[q % len(pks)] for q in range(3)]
+    shapes = [(kd, x[c] + rng.uniform(-0.3, 0.3) * h, rng.uniform(1.5, 3.0) * h)
+              for kd, c in zip(kinds, centres, strict=True)]
+    xu, yu = UNITS[rng.integers(0, len(UNITS))]
+    dim = DIMS[rng.integers(0, len(DIMS))]
+    data = simple_spectrum(rng, x, shapes, dim, xu, yu)
+    fval = [frac, np.float64(frac)][rnd % 2]
+    as_spec = lambda sp: sp if isinstance(sp, str) else list(sp)  # noqa: E731
+
+    def tag_for(kind, m, cs):
+        t = _tag(kind, m, dim, xu, yu, pks, [BKG_NAME[b] for b in bgs], field='FitParameters.guess_background_fraction',
+                 field_value=repr(fval), guess_fraction=frac, point_counts=list(cs), fraction_class=fc,
+                 forced_class=f'narrow windows, guess_background_fraction {fc}, '
+                              f'{"explicit" if kind == "explicit" else "automatic"} windows')
+        if lean:
+            t['skip_isolation'] = True
+        if not isinstance(pk_spec, str):
+            t['peak_spec_form'] = 'list'
+        if not isinstance(bg_spec, str):
+            t['background_spec_form'] = 'list'
+        return t
+
+    # one explicit window per point count, around the three peaks in turn (explicit windows may overlap)
+    w, est = [], []
+    for q, c in enumerate(counts):
+        ctr = centres[q % 3]
+        i0 = ctr - c // 2
+        w.append([x[i0] - 0.3 * h, x[i0 + c - 1] + 0.3 * h])
+        est.append(shapes[q % 3][1])
+    order = np.argsort(est, kind='stable')
+    w, est, cs = np.array(w)[order], np.array(est)[order], [counts[q] for q in order]
+    layout = WINDOW_LAYOUTS[rnd % len(WINDOW_LAYOUTS)]
+    tag = tag_for('explicit', len(est), cs)
+    tag['windows_layout'] = layout
+    kw = {'peak_estimates': estimates_variable(est, dim, xu or 'one', False, tag),
+          'windows': windows_in_layout(layout, w, dim, xu or 'one'),
+          'background': as_spec(bg_spec), 'peak': as_spec(pk_spec),
+          'fit_parameters': P.FitParameters(guess_background_fraction=fval)}
+    yield data, kw, tag, ('fit_peaks', 'narrow_fraction', 'explicit', fc, pk_spec, bg_spec, len(cs))
+    # automatic windows: the width makes the count (the same for every estimate, +- 1 with the position)
+    below = [c for c in counts if c < flip]
+    autos = [below[rnd % len(below)] if below else counts[rnd % len(counts)], counts[(rnd + len(counts) // 2) % len(counts)]]
+    for c in autos[:1] if lean else autos:
+        est2 = np.array([shapes[0][1], shapes[2][1]])
+        tag = tag_for('few_points', 2, [c, c])
+        kw = {'peak_estimates': estimates_variable(est2, dim, xu or 'one', False, tag),
+              'windows': sc.scalar((c - 0.5) * h, unit=xu or 'one'),
+              'background': as_spec(bg_spec), 'peak': as_spec(pk_spec),
+              'fit_parameters': P.FitParameters(guess_background_fraction=fval)}
+        yield data, kw, tag, ('fit_peaks', 'narrow_fraction', 'automatic', fc, pk_spec, bg_spec, c >= flip)
 
 
 # ---- the same input in every other form the documentation allows (protocol classes) ----------
@@ -2284,9 +2414,10 @@ def plan(tier, seed):
     if tier == 'quick':
         # 14 planned shards + the 2 environment-variant shards of the runner = one wave on 16 cores
         # the shard that carries the heavy spectrum gets a smaller share of the ordinary cases
-        return [{'spectra': 3 if i == 13 else 7, 'resolution': 1 if i == 13 else 2, 'separation': 2, 'fields': 2,
+        return [{'spectra': 2 if i == 13 else 5, 'resolution': 1 if i == 13 else 2, 'separation': 2, 'fields': 2,
+                 'narrow': 0 if i == 13 else 1,
                  'protocol_rounds': 1, 'of': 14, 'heavy': i == 13} for i in range(14)]
-    return [{'spectra': 313, 'resolution': 48, 'separation': 36, 'fields': 24, 'protocol_rounds': 4,
+    return [{'spectra': 313, 'resolution': 48, 'separation': 36, 'fields': 24, 'narrow': 20, 'protocol_rounds': 4,
              'of': 16, 'heavy': i == 15} for i in range(16)]
 
 
@@ -2330,7 +2461,7 @@ def requirements(tier):
                    'auto_window_separation.width_reaches_limit': 100 * k,
                    **{f'auto_window_separation.factor_{fc}': 8 * k for fc in SEP_FACTORS},
                    **{f'auto_window_separation.factor_{fc}.results': 8 * k for fc in SEP_FACTORS},
-                   'field_case': 24 * k2,
+                   'field_case': 24 * k2, 'narrow_fraction_case': 30 * k2, 'narrow_window_with_fraction': 50 * k2,
                    # the same input in another form gave a result that was compared
                    'same_result_in_other_form': 30 * k2, 'same_removal_in_other_form': 15 * k2,
                    **{'other_form.' + ax: 1 for ax in sorted({a for a, _ in PROTOCOL_CLASSES})},
@@ -2360,7 +2491,8 @@ def requirements(tier):
                    *('spectrum on a ' + g + ' grid' for g in NON_UNIFORM_GRIDS),
                    *FORCED_SEPARATION_CLASSES,
                    *(f'separation case with {m} estimates' for m in range(2, 7)),
-                   *FORCED_FIELD_CLASSES, *FORCED_PROTOCOL_CLASSES,
+                   *FORCED_FIELD_CLASSES, *FORCED_NARROW_CLASSES, *FORCED_NARROW_REGION_CLASSES,
+                   *FORCED_PROTOCOL_CLASSES,
                    'spectrum of more than 2**20 points'],
         'counters': {'success_after_failed_attempts': 1, 'all_pairs_failed': 1,
                      'assessment:success': 30 * k,
@@ -2524,6 +2656,15 @@ def run(shard, ctx):
             data, kw, tag, sig = build_field_case(rng, fi, tier, M, P, mon.sources)
             drive(data, kw, tag, sig, remove=True, sample=j == 0)
             ctx.event('field_case')
+        # narrow windows x non-default guess_background_fraction
+        nnar = shard.get('narrow', 0)
+        for j in range(nnar):
+            ni = index * nnar + j
+            rng = np.random.Generator(np.random.PCG64([seed, index, 250000 + j]))
+            mon.sources.clear()
+            for bi, (data, kw, tag, sig) in enumerate(build_narrow_fraction_case(rng, ni, tier, M, P, mon.sources)):
+                drive(data, kw, tag, sig, remove=bi == 0, sample=(j == 0 and bi == 0))
+                ctx.event('narrow_fraction_case')
         # the same input in every other documented form
         nsh = max(int(shard.get('of', 1)), 1)
         for rnd in range(shard.get('protocol_rounds', 0)):
